@@ -237,6 +237,29 @@ func runGroup(c *mon.Ctx, g *groups.Group) {
 		c.Check("MultiExp", N+"/MultiExp/missing-error/length-mismatch", err != nil && err != groups.ErrInputModified, func() string { return "5 points, 4 scalars: no error" })
 		_, err = g.MultiExp(idx, sc, 0, "aff")
 		c.Check("MultiExp", N+"/MultiExp/missing-error/length-mismatch", err != nil && err != groups.ErrInputModified, func() string { return "5 points, 4 scalars (affine receiver): no error" })
+		// the length contract in both directions, at sizes below and above the thresholds where the routine splits
+		// the work, with every kind of task count and both receivers
+		for _, pq := range [][2]int{{0, 1}, {1, 0}, {1, 2}, {2, 1}, {4, 5}, {33, 32}, {32, 33}, {600, 601}, {601, 600}, {600, 1200}} {
+			if race && pq[0]+pq[1] > 100 {
+				continue
+			}
+			idx := shapePoints(e, "distinct", pq[0])
+			sc := shapeScalars(e, "random", pq[1], 4)
+			for _, nb := range []int{0, 1, 3, 64} {
+				for _, variant := range []string{"jac", "aff"} {
+					var err error
+					if c.Guard(N+"/MultiExp/panic/length-mismatch", func() string { return fmt.Sprintf("%d points, %d scalars, NbTasks=%d, %s receiver", pq[0], pq[1], nb, variant) }, func() {
+						_, err = g.MultiExp(idx, sc, nb, variant)
+					}) {
+						continue
+					}
+					c.Check("MultiExp", N+"/MultiExp/missing-error/length-mismatch", err != nil && err != groups.ErrInputModified, func() string {
+						return fmt.Sprintf("%d points, %d scalars, NbTasks=%d, %s receiver: no error", pq[0], pq[1], nb, variant)
+					})
+					c.Class(fmt.Sprintf("%s/MultiExp/length-mismatch/%dx%d", N, pq[0], pq[1]))
+				}
+			}
+		}
 		sc = shapeScalars(e, "random", 5, 4)
 		for _, nb := range []int{1025, 2048, 1 << 20} {
 			_, err = g.MultiExp(idx, sc, nb, "jac")
